@@ -1,5 +1,6 @@
 import KrroodVerif.Sexp
 import KrroodVerif.Model.SymbolGraph
+import KrroodVerif.Model.SymbolGraphStep
 import KrroodVerif.Drive.SG
 /-!
 C13 driver. Case: `(h <op> …)`. Observation `A|B`: `B` = the sorted census of every evaluated query, in order;
@@ -42,8 +43,10 @@ def hasDup : List Nat → Bool
 def trigDiamond (S : Schema) (ops : List Op) : Bool :=
   ops.any (fun op => match op with | .mkq _ c none => hasDup (S.below c) | _ => false)
 
-/-! ### stepwise (lazily consumed) evaluations — driver level, on top of the proven model
+/-! ### stepwise (lazily consumed) evaluations
 
+The walk is MODEL level since build c13 (`Model/SymbolGraphStep.lean`; theorems `C13_stepwise_*` in `Props/C13Step.lean`);
+the driver only adds the composite operations (`XOp`) and the classes defined on the way.
 `(qstart k c)` builds `an(entity(x, <trivially true condition on x>))` over `x = let(C, None)` and takes `iter(q.evaluate())`:
 nothing runs yet. `(qnext k)` is one `next()`. The first `next()` runs `remove_dead_instances()` and starts the domain
 generator of `get_instances_of_type`: it walks `[type_] + recursive_subclasses(type_)` (the classes that exist THEN) and
@@ -72,38 +75,25 @@ def parseD (xs : List Sexp) : Option (List DOp) :=
       pure (a :: b)
   go 0 xs
 
+/-- the run: the model's `SRun` (state + evaluations in flight, each with its ghost `late`) + the classes defined so far -/
 structure DRun where
-  st : DSt
+  r : SRun (List Nat × Nat)
   defs : List (Cls × Cls) := []
-  iters : List Iter := []
-  /-- trigger of F-C13-3: an instance became known to the registry while a stepwise evaluation was suspended that
-  has not yet reached the class of that instance -/
-  lateKnown : Bool := false
 
-/-- the wrappers the registry has after an operation and did not have before it: instances created by the operation, and
-live instances the registry had forgotten (`clear`) that the operation wraps again (`ensure_wrapped_instance`: an end of
-a relation, a role taker, an item of an adopted container, …) -/
-def newlyKnown (before after : DSt) : List W :=
-  after.g.byClass.filter (fun w => !before.g.byClass.any (fun v => v.obj == w.obj))
+def DRun.st (d : DRun) : DSt := d.r.st
+def DRun.iters (d : DRun) : List Iter := d.r.iters
+/-- trigger of F-C13-3: an instance became known to the registry while a stepwise evaluation was suspended that
+has not yet reached the class of that instance (`SRun.lateKnown`: some evaluation's ghost `late` is non-empty) -/
+def DRun.lateKnown (d : DRun) : Bool := d.r.lateKnown
 
-/-- is some evaluation suspended (first `next()` done, not ended) whose walk has yet to reach the class of `w` -/
-def awaited (iters : List Iter) (w : W) : Bool :=
-  iters.any (fun it => it.started && it.status == 0 && it.walk.contains w.cls)
-
-def stepDOp (q : Quirks) (snap skipDead : Bool) (Sfinal : Schema) (r : DRun) : DOp → DRun
-  | .m ops =>
-    let st := runXS Sfinal q r.st ops
-    { r with st := st, lateKnown := r.lateKnown || (newlyKnown r.st st).any (awaited r.iters) }
-  | .defclass c p => { r with defs := r.defs ++ [(c, p)] }
+/-- every step is the model's: `SRun.between` (the operations of the history, run by `runXS`), `SRun.start`, `SRun.next` -/
+def stepDOp (q : Quirks) (snap skipDead : Bool) (Sfinal : Schema) (d : DRun) : DOp → DRun
+  | .m ops => { d with r := d.r.between (runXS Sfinal q d.r.st ops) }
+  | .defclass c p => { d with defs := d.defs ++ [(c, p)] }
   | .qstart k c =>
-    if r.iters.any (fun it => it.key == k) then r
-    else { r with st := stepS Sfinal q r.st (.mkq (iterKey k) c none), iters := r.iters ++ [{ key := k, cls := c }] }
-  | .qnext k =>
-    match r.iters.find? (fun it => it.key == k) with
-    | none => r
-    | some it =>
-      let (st, it') := advance q snap skipDead (schemaWith r.defs) Sfinal r.st it
-      { r with st := st, iters := r.iters.map (fun x => if x.key == k then it' else x) }
+    -- `fill` leaves a `mkq` alone: `stepS Sfinal q st op = step q Sfinal lifo st op`
+    { d with r := d.r.start q Sfinal lifo k c }
+  | .qnext k => { d with r := d.r.next q snap skipDead (schemaWith d.defs) lifo k }
 
 def iterDiff (st : DSt) (i : Nat) (it : Iter) : Option String :=
   let missing := if it.status == 1 then
@@ -125,7 +115,7 @@ def obsD (r : DRun) : String :=
   a ++ "|" ++ ";".intercalate b
 
 def runDOps (q : Quirks) (snap skipDead : Bool) (Sfinal : Schema) (ops : List DOp) : DRun :=
-  ops.foldl (stepDOp q snap skipDead Sfinal) { st := St.init lifo }
+  ops.foldl (stepDOp q snap skipDead Sfinal) { r := { st := St.init lifo } }
 
 def run (s : Sexp) : String :=
   match s with
